@@ -230,6 +230,33 @@ def funding_scenarios(patterns, limit):
     return rows
 
 
+def cross_collateral_scenarios(n):
+    """cross-collateral positions (long backed by the short token, short backed by the long token) that
+    are partially decreased / topped up / partially withdrawn AFTER funding accrued, with either side paying"""
+    rows = []
+    pairs = [(3, 2), (2, 3), (7, 6), (6, 7), (3, 6), (2, 7)]          # (payer slot = larger side, receiver slot)
+    for k in range(n):
+        a, b = pairs[k % len(pairs)]
+        big, small = 300 + 17 * (k % 7), 60 + 9 * (k % 5)
+        dt = 1 + k % 2
+        fp = (0, 7, 2, 3)[k % 4]
+        def inc(slot, size, usd):
+            return {"op": "increase", "pos": slot, "size": size, "coll": (usd // 10 + 1) if slot % 2 == 1 else usd + 1}
+        def dec(slot, size, wd=0):
+            return {"op": "decrease", "pos": slot, "size": size, "wd": wd}
+        rows += [dict(RESET, fp=fp), {"op": "init"}, {"op": "deposit", "l": 400, "s": 4000},
+                 inc(a, big, big), inc(b, small, small),
+                 {"op": "update_funding"}, {"op": "tick", "dt": dt}, {"op": "update_funding"},
+                 dec(b, small // 3), dec(a, big // 3),
+                 {"op": "tick", "dt": 1}, {"op": "update_funding"},
+                 dec(b, 0, 1), dec(a, 0, 1), inc(b, 20, 0), dec(b, small // 4), dec(a, big // 4),
+                 # flip the paying side: the former receiver grows past the former payer
+                 inc(b, 2 * big, 2 * big), {"op": "tick", "dt": dt}, {"op": "update_funding"},
+                 dec(a, big // 5), dec(b, big // 3), {"op": "tick", "dt": 1}, {"op": "update_funding"},
+                 dec(a, 100000) | {"cap": True}, dec(b, 100000) | {"cap": True}]
+    return rows
+
+
 def judge(ctx, pid, batch, stats):
     """validate one batch; report this property's monitor failures; collect statistics"""
     fails, drifts, _ = ctx.validate_trace(TRACE, batch.trace, cfg=batch.cfg)
@@ -297,6 +324,14 @@ def collect(st, ev):
                 st["funding_claimed"] += 1
         if op in ("increase", "decrease") and not e["ok"]:
             st["failed_attempts"] += 1
+            if e["pp"]["has"]:
+                st["partial_states"] += 1
+        if op == "decrease" and e["ok"] and not r["remove"] and prev is not None:
+            p = e["ps"][a["pos"] - 1]
+            q0 = prev["ps"][a["pos"] - 1]
+            if p["long"] != p["cl"] and q0["pf_ok"] and (sum(q0["pf"]) > 0 or p["fps"] > 0):
+                # cross-collateral position partially decreased after funding accrued; which side had been paying
+                st["cross_partial_" + ("payer" if q0["pf"][0] > 0 or p["fps"] > q0["fps"] else "receiver")] += 1
         if e["ncb"]:
             st["callbacks"] += e["ncb"]
             seen_cb = True
@@ -397,6 +432,7 @@ def run(ctx, pid):
         need(any(p["ch"] == "fixed" and p["rate"] < p["f_min"] and p["ok"] for p in probes),
              "no non-adaptive probe below the configured minimum")
         batches.append(replay_batch(ctx, "probes", [RESET, {"op": "init"}] + probes))
+        batches.append(replay_batch(ctx, "cross_collateral", cross_collateral_scenarios(48 if q else 480)))
     elif pid == "C13":
         r = ctx.model_check("MC_Borrowing", cfg="MC_Borrowing" if q else "MC_Borrowing_thorough", workers=8,
                             timeout=1500, coverage=False)
@@ -427,10 +463,12 @@ def run(ctx, pid):
             ev = judge(ctx, pid, merge_batches(ctx, "all_%s_%d" % (cfg or "d1", k), bs[k:k + chunk]), st)
             last = ev or last
 
-    # ---- 3. vacuity: the antecedents of this property's monitors were exercised
+    # ---- 3. vacuity: the antecedents of this property's monitors were exercised (a defect that makes
+    #         whole classes of operations fail must surface as its violation, not as a vacuity error)
     ops = st["ops"]
+    need_v = (lambda cond, what: None) if ctx.violations else need
     if pid == "C07":
-        need(st["removed"] > 5 and st["promoted"] > 0 and st["collateral_only"] > 0 and st["liquidations"] > 0
+        need_v(st["removed"] > 5 and st["promoted"] > 0 and st["collateral_only"] > 0 and st["liquidations"] > 0
              and st["failed_attempts"] > 10 and st["capped"] > 0,
              "C07 history classes missing: %s" % {k: st[k] for k in ("removed", "promoted", "collateral_only", "liquidations", "failed_attempts", "capped")})
         ctx.distinct += len(st["pos_ok"])
@@ -438,7 +476,7 @@ def run(ctx, pid):
                 "USD and tokens, resulting position); histories: TLC-printed scripts of MC_OIBook replayed under 3 fee/"
                 "impact configurations + seeded random histories over 8 position slots (2 owners x side x collateral)")
     elif pid == "C08":
-        need(st["funding_collected"] > 5 and st["funding_claimed"] > 5 and st["backed_states"] > 50 and ops[("swap", True)] > 0
+        need_v(st["funding_collected"] > 5 and st["funding_claimed"] > 5 and st["backed_states"] > 50 and ops[("swap", True)] > 0
              and ops[("withdraw", True)] > 0, "C08 history classes missing: collected=%d claimed=%d backed_states=%d" % (
                  st["funding_collected"], st["funding_claimed"], st["backed_states"]))
         ctx.distinct += len(st["pos_ok"]) + ops[("swap", True)] + ops[("withdraw", True)] + ops[("deposit", True)]
@@ -446,15 +484,18 @@ def run(ctx, pid):
                 "deposits, withdrawals, swaps); the ledger identity is checked on every step, the backing inequality on "
                 "every state before the first reported insufficient funding payment")
     elif pid == "C12":
-        need(len(st["rate_adaptive"]) > 20 and len(st["rate_fixed"]) > 20 and st["rate_pos_fixed"] > 5
-             and st["rate_pos_adaptive"] > 5 and st["index_moves"] > 5 and st["rate_failed"] > 0,
-             "C12 classes missing: adaptive=%d fixed=%d moves=%d failed=%d" % (len(st["rate_adaptive"]), len(st["rate_fixed"]), st["index_moves"], st["rate_failed"]))
+        need_v(len(st["rate_adaptive"]) > 20 and len(st["rate_fixed"]) > 20 and st["rate_pos_fixed"] > 5
+             and st["rate_pos_adaptive"] > 5 and st["index_moves"] > 5 and st["rate_failed"] > 0
+             and st["partial_states"] > 5 and st["cross_partial_payer"] > 5 and st["cross_partial_receiver"] > 5,
+             "C12 classes missing: adaptive=%d fixed=%d moves=%d failed=%d partial=%d cross-collateral partial decreases payer=%d receiver=%d" % (
+                 len(st["rate_adaptive"]), len(st["rate_fixed"]), st["index_moves"], st["rate_failed"], st["partial_states"],
+                 st["cross_partial_payer"], st["cross_partial_receiver"]))
         ctx.distinct += len(st["rate_adaptive"]) + len(st["rate_fixed"])
         rule = ("distinct = distinct (long OI, short OI, duration, stored rate, parameters, resulting rate, payer) tuples "
                 "evaluated by the real next_funding_factor_per_second with both sides non-empty (TLC-printed probes + "
                 "update_funding steps of random histories); index monotonicity and pending-fee monitors on every step/state")
     else:
-        need(len(st["bf_moves"]) > 5 and st["borrowing_states"] > 50 and st["pending_borrowing_pos"] > 20,
+        need_v(len(st["bf_moves"]) > 5 and st["borrowing_states"] > 50 and st["pending_borrowing_pos"] > 20,
              "C13 classes missing: factor moves=%d states with accrued factor=%d positive pending=%d" % (
                  len(st["bf_moves"]), st["borrowing_states"], st["pending_borrowing_pos"]))
         ctx.distinct += len(st["bf_moves"]) + len(st["pos_ok"])
